@@ -62,9 +62,8 @@ Theorem C17_space_is_string32 : forall n, space_fn n = string_fn n 32 /\
   (0 <= n -> exists r, space_fn n = SOk r /\ Z.of_nat (length r) = n).
 Proof. exact space_is_string32. Qed.
 
-(** VAL(STR$(k)) = k for every whole number k of the LONG range (as INTEGER when it fits, else LONG) *)
-Theorem C17_val_str_roundtrip : forall k, in_long k ->
-  val_fn (str_fn k) = Some (if (-32768 <=? k) && (k <=? 32767) then TInt else TLong, k).
+(** VAL(STR$(k)) = k for every whole number k of the LONG range (VAL returns a DOUBLE, which holds k exactly) *)
+Theorem C17_val_str_roundtrip : forall k, in_long k -> val_fn (str_fn k) = Some (TDouble, k).
 Proof. exact val_str_roundtrip. Qed.
 
 (** Negative counts and non-positive start positions raise Illegal function call - and nothing else does *)
@@ -77,7 +76,7 @@ Theorem C17_counts_illegal : forall s n st l,
 Proof. exact counts_illegal. Qed.
 
 Example C17_ex : left_fn [97;66;32] 2 = SOk [97;66] /\ mid_fn [97;66;32] 3 None = SOk [32]
-  /\ instr_fn 2 [97;66;97;66] [97;66] = SOk 3 /\ val_fn (str_fn (-32769)) = Some (TLong, -32769).
+  /\ instr_fn 2 [97;66;97;66] [97;66] = SOk 3 /\ val_fn (str_fn (-32769)) = Some (TDouble, -32769).
 Proof. vm_compute. repeat split. Qed.
 
 Print Assumptions C17_left_mid_concat.
